@@ -412,7 +412,22 @@ class Monitors:
                 req = a.get('fit_requirements') or self.FP.FitRequirements()
                 judge_success(ctx, xw, yw, vw, float(lo_all[i]), float(hi_all[i]), coef, pk, pair,
                               rep, req, case)
+        self._judge_better_than(res, base)
         self._judge_isolation(a, res, used, base)
+
+    def _judge_better_than(self, res, base):
+        """FitResult.better_than 'uses aic': the smaller AIC (= 2k - 2 ln L) is the better fit."""
+        ctx = self.ctx
+        fin = [r for r in res if math.isfinite(float(r.aic.value))]
+        for r, o in zip(fin[:-1], fin[1:], strict=False):
+            a1, a2 = float(r.aic.value), float(o.aic.value)
+            if a1 == a2:
+                continue
+            ctx.event('better_than')
+            got = (bool(r.better_than(o)), bool(o.better_than(r)))
+            if got != (a1 < a2, a2 < a1):
+                ctx.violation('better_than', f'better_than gives {got} for AIC {a1!r} vs {a2!r}',
+                              {**base, 'aic': [a1, a2]})
 
     def _judge_raise(self, exc, rec, used, est, x, base, auto):
         ctx = self.ctx
@@ -776,6 +791,9 @@ def gen_spectrum(rng, tier):
         height = at * 10 ** rng.uniform(np.log10(5), np.log10(500))
         pk['p']['amplitude'] = 1.0
         pk['p']['amplitude'] = height / pm.peak_height(pk['kind'], pk['p'])
+        if npk > 1 and rng.random() < 0.12:
+            pk['p']['amplitude'] *= -1.0  # a dip: must never be reported as a successful peak
+            pk['dip'] = True
         y = y + pm.peak(pk['kind'], x, pk['p']).astype(np.float64)
     y = y + rng.normal(0.0, 1.0, n) * sigma
     return {'x': x, 'y': y, 'var': sigma ** 2, 'peaks': peaks, 'grid': gk, 'noise': nk,
@@ -824,7 +842,7 @@ def build_case(rng, gi, tier, M, P):
     est, fwhms = est[order], [fwhms[k] for k in order]
     m = len(est)
     tag = {'window_class': wc, 'estimate_class': ec, 'spec_class': sc_cls, 'grid': s['grid'],
-           'units': [xu, yu], 'dim': dim}
+           'units': [xu, yu], 'dim': dim, 'dips': sum(bool(pk.get('dip')) for pk in s['peaks'])}
     if wc == 'sub_step':
         windows = sc.scalar(med * rng.uniform(0.2, 0.95), unit=xu or 'one')
     elif wc == 'few_points':
@@ -894,7 +912,7 @@ def requirements(tier):
                    'window below the grid spacing', 'window spanning the full range',
                    'explicit windows', 'explicit windows, unsorted estimates',
                    'model list', 'instance with foreign prefix',
-                   'overlapping successful windows'],
+                   'overlapping successful windows', 'spectrum with a dip (negative peak)'],
         'counters': {'success_after_failed_attempts': 1, 'all_pairs_failed': 1,
                      'assessment:success': 30 * k},
     }
@@ -1002,6 +1020,8 @@ def _forced(ctx, tag, kw, data):
         ctx.hit('explicit windows')
         if np.any(np.diff(est) < 0):
             ctx.hit('explicit windows, unsorted estimates')
+    if tag.get('dips'):
+        ctx.hit('spectrum with a dip (negative peak)')
     for s in (kw['peak'], kw['background']):
         if isinstance(s, list | tuple) and len(s) > 1:
             ctx.hit('model list')
